@@ -1,3 +1,32 @@
 from harness.props._engine_common import make
 
 explore, search, replay = make({"C06"})
+
+
+def probe_known(ctx, k):
+    """F5b: a failing get_modified_time on a store registered for a Literal -> AttributeError instead of CallError."""
+    import uberjob
+    from uberjob.stores import LiteralSource
+
+    class Bad(LiteralSource):
+        def get_modified_time(self):
+            raise OSError("boom")
+
+    p = uberjob.Plan()
+    r = uberjob.Registry()
+    lit = p.lit(1)
+    r.add(lit, Bad(1, None))
+    try:
+        uberjob.run(p, registry=r, output=lit, progress=None)
+    except uberjob.CallError:
+        return "absent"
+    except AttributeError as e:
+        return "present" if "fn" in str(e) else "absent"
+    except Exception:
+        return "absent"
+    return "absent"
+
+
+def matches_known(k, v):
+    w = v.get("witness_kind") if isinstance(v, dict) else None
+    return w == "registered-literal-mtime-failure"
